@@ -313,13 +313,13 @@ int main(int argc, char** argv) {
         else run_case(c);
         return run.finish();
     }
-    const int leaves[] = {L_SQUARE, L_TRIANGLE, L_LABEL2, L_EMPTY, L_FLEX, L_ROBUST, L_POLY_RECT, L_POLY_REGULAR, L_POLY_EXPLICIT, L_POLY_EXPLICIT_X, L_POLY_EXPLICIT_Y, L_LABEL_EXPLICIT, L_MIXED};
+    const int leaves[] = {L_SQUARE, L_TRIANGLE, L_LABEL2, L_EMPTY, L_FLEX, L_ROBUST, L_POLY_RECT, L_POLY_REGULAR, L_POLY_EXPLICIT, L_POLY_EXPLICIT_X, L_POLY_EXPLICIT_Y, L_LABEL_EXPLICIT, L_MIXED, L_POLY_REG_1COL, L_LABEL_REG_1ROW};
     std::vector<RefSpec> specs;
     for (int rot = 0; rot < NROT; rot++) for (int refl = 0; refl < 2; refl++) for (int mag = 0; mag < 2; mag++) for (int org = 0; org < 2; org++) for (int rep = 0; rep < NREP; rep++) {
         if (!T) {
             if (rot == 2 || rot == 3 || rot == 5) continue;            // quick: rotations {0, pi/2, 0.5}
             if (mag != (org ? 1 : 0)) continue;                       // magnification tied to origin
-            if (rep == REP_EXPLICIT_Y || rep == REP_REGULAR) continue;  // quick: none, rect, explicit, explicit_x
+            if (rep == REP_EXPLICIT_Y || rep == REP_REGULAR || rep >= REP_REGULAR_1COL) continue;  // quick: none, rect, explicit, explicit_x
         } else if (org == 0 && mag == 1) continue;                    // thorough: 3 of the 4 origin/magnification pairs
         specs.push_back({rot, refl, mag, org, rep});
     }
